@@ -14,12 +14,24 @@
     C11Doc     rowOf_lt, colOf_le
     C11Exact   (model variant of the NOT-APPLIED fix) wrappedHeight_ones, fold_wrap_rows_gen,
                copyLine_wrap_rows_gen, heightForLine_exact, wrap_height_exact_fixed
+    C11Gen     ANY cell widths, the code as it is: ExtG / fold_extG, skipLoop_spec, hskip_spec,
+               copyLine_nowrap_cursor_gen, copyBody_nowrap_cursor_gen, nowrap_cursor_in_window_gen
+    C11WrapGen ANY cell widths, wrapping: fold_wrap_last_gen, copyBody_wrap_cursor_gen,
+               wrap_cursor_in_window_est, estimate_exact, wrap_cursor_in_window_partial
+    C11Mouse   copyBody_rc_injective, click_recorded_cell, click_cursor_cell (the mouse handler inverts
+               the cursor placement); C11Doc rowColToIndex_rowcol; here: click_roundtrip
+    C11Margin  margin_index_is_screen_row, margin_number_first_row (NumberedMargin rows)
+    C11Wide    render_cursor_shown, history_independent_gen, render_cursor_shown_genW, pinned side
+               conditions of the generated character classes
 -/
 import Ptk.Props.C11Window
 import Ptk.Props.C11Rows
 import Ptk.Props.C11Procs
 import Ptk.Props.C11Doc
 import Ptk.Props.C11Exact
+import Ptk.Props.C11Wide
+import Ptk.Props.C11Mouse
+import Ptk.Props.C11Margin
 namespace Ptk.C11
 open Ptk.Py
 
@@ -312,5 +324,164 @@ example := wrap_height_exact_fixed { wWide with exact := true } rfl rfl cfg0 2 9
   (fun f h => by simp [cfg0, Cfg.prefixFn] at h) (fun f h => by simp [cfg0, Cfg.prefixFn] at h)
   "a世a".toList (initCS 0) rfl (by decide)
 example := wrappedHeight_ones (fun _ => 1) 3 (fun _ => by decide) 7 1 1 8 (by decide) (by decide)
+
+/-- KNOWN finding, second shape (the code as it is now): the line with the double-width characters is
+    ABOVE the cursor line.  Width 3, height 4, "ab世世世" + blank is estimated at 9 / 3 = 3 rows but copied
+    in 4 ("ab" / "世" / "世" / "世 "); the cursor line below it is believed to fit (3 + 1 ≤ 4), nothing
+    scrolls, and the cursor cell is never drawn.  So the excluded region of
+    `wrap_cursor_in_window_partial` is "a non-one-column cell on a displayed line at or above the cursor
+    that wraps", not only the cursor line itself. -/
+theorem wide_line_above_loses_cursor :
+    let lines := ["ab世世世 ".toList, "x ".toList]
+    let s' := scrollFor wWide cfg0 lines 3 4 true 1 1 s0
+    s'.vs = 0 ∧ s'.vs2 = 0 ∧ cursorFound (copyBody (envFor wWide cfg0 3 4 true 0) lines s') 1 1 = false ∧
+      ¬ Regular wWide cfg0 3 0 "ab世世世 ".toList := by
+  decide
+
+/-- KNOWN finding (own class): a zero-width (combining) character under the cursor has no cell of its
+    own.  Width 2, "世" + U+0301 + blank, cursor on the accent: the row is exactly full, `copy_line`
+    neither wraps (x + 0 > width is false) nor records the position (x < width is false). -/
+theorem zero_width_under_cursor_not_recorded :
+    let lines := ["世́ ".toList]
+    let s' := scrollFor wMix cfgN lines 2 1 true 0 1 s0
+    cursorFound (copyBody (envFor wMix cfgN 2 1 true 0) lines s') 0 1 = false ∧ cellW wMix '́' = 0 := by
+  decide
+
+/-- the same three shapes WITHOUT wrapping: the cursor is found, inside the window, on its cell
+    (instances of `nowrap_cursor_in_window_gen`, which holds for all inputs) -/
+theorem nowrap_has_no_such_finding :
+    (let lines := ["a世 ".toList]
+     let r := copyBody (envFor wWide cfg0 2 1 false 0) lines (scrollFor wWide cfg0 lines 2 1 false 0 2 s0)
+     cursorFound r 0 2 = true ∧ cellAt r.cells (cursorScreen r 0 2) = [' ']) ∧
+    (let lines := ["ab世世世 ".toList, "x ".toList]
+     let r := copyBody (envFor wWide cfg0 3 4 false 0) lines (scrollFor wWide cfg0 lines 3 4 false 1 1 s0)
+     cursorFound r 1 1 = true ∧ cellAt r.cells (cursorScreen r 1 1) = [' ']) ∧
+    (let lines := ["世́ ".toList]
+     let r := copyBody (envFor wMix cfgN 2 1 false 0) lines (scrollFor wMix cfgN lines 2 1 false 0 1 s0)
+     cursorFound r 0 1 = true) := by
+  decide
+
+/-! ### mouse: a click on the cursor cell is the inverse of the cursor placement -/
+
+theorem render_eq (W : Widths) (c : Cfg) (tw height : Nat) (wrap : Bool) (text : Text) (cur : Nat) (s : Scroll) :
+    render W c tw height wrap text cur s =
+      (cursorX c.procs text cur).map fun cx =>
+        let lines := contentLines c.procs text
+        let mw : Nat := if c.margin then numberedMarginWidth lines.length else 0
+        let width : Int := (tw : Int) - mw
+        let s' := scrollFor W c lines width height wrap (rowOf text cur) cx s
+        { scroll := s', cy := rowOf text cur, cx := cx, width := width, xoff := c.xpos + mw,
+          st := copyBody (envFor W c width height wrap mw) lines s' } := by
+  unfold render
+  cases cursorX c.procs text cur <;> rfl
+
+/-- **click_roundtrip** (end to end, one-column cells, both wrap modes, any previous scroll state,
+    any processors with good maps): render a document with the cursor at index `cur`; a MOUSE_DOWN on
+    the screen cell where the cursor was drawn is turned by the window's handler into exactly the
+    cursor's content position `(row, col)`, and `BufferControl.mouse_handler` turns that — through
+    `display_to_source` of the merged processors and `translate_row_col_to_index` — back into `cur`. -/
+theorem click_roundtrip {W : Widths} (hW : W1 W) (c : Cfg) (hps : ∀ p ∈ c.procs, ProcOK p)
+    (tw height w : Nat) (wrap : Bool) (text : Text) (cur : Nat) (s : Scroll)
+    (hw : (tw : Int) - ((if c.margin then numberedMarginWidth (contentLines c.procs text).length else 0 : Nat) : Int) = w)
+    (h1 : 1 ≤ w) (hh : 1 ≤ height)
+    (hpfx : ∀ f, c.prefixFn = some f → ∀ l k, (f l k).length < w)
+    (hcur : cur ≤ text.length) (hx0 : 0 ≤ c.xpos) :
+    ∃ r, render W c tw height wrap text cur s = some r ∧
+      windowClick r.st c.ypos (cursorScreen r.st r.cy r.cx).1 (cursorScreen r.st r.cy r.cx).2 = (r.cy, r.cx) ∧
+      bufferClick c.procs text r.cy r.cx = cur := by
+  obtain ⟨r, hr, hcy, yc, xc, ch, _, _, _, a4, a5, _⟩ :=
+    render_cursor_on_char hW c hps tw height w wrap text cur s hw h1 hh hpfx
+  refine ⟨r, hr, ?_, ?_⟩
+  · rw [render_eq] at hr
+    cases hcX : cursorX c.procs text cur with
+    | none => rw [hcX] at hr; cases hr
+    | some cx =>
+      rw [hcX] at hr
+      simp only [Option.map_some, Option.some.injEq] at hr
+      subst hr
+      simp only [] at a4 a5 ⊢
+      exact click_cursor_cell (e := envFor W c _ height wrap _) hW _ _ (scrollFor_vs2_nonneg ..) _ _ a4
+        (by rw [a5]; simp only []; omega)
+  · have hrow := rowOf_lt text cur
+    have hcol := colOf_le text cur
+    have hg := merged_good (rowOf text cur) (splitOn '\n' text).length c.procs hps
+      ((splitOn '\n' text).getD (rowOf text cur) [])
+    obtain ⟨cx, hcx1, _, hcx3⟩ := hg.defd (colOf text cur) hcol
+    have hcX : cursorX c.procs text cur = some cx := hcx1
+    rw [render_eq, hcX] at hr
+    simp only [Option.map_some, Option.some.injEq] at hr
+    subst hr
+    show rowColToIndex text (rowOf text cur) _ = cur
+    rw [hcx3]
+    exact rowColToIndex_rowcol text cur hcur
+
+-- non-vacuity: margin + prefixes + BeforeInput + tabs, a scrolled-away previous state
+example := click_roundtrip w1_W1 cfg1
+  (by intro p hp; simp [cfg1] at hp; rcases hp with rfl | rfl <;> simp [ProcOK])
+  12 2 9 true "ab\tcd\nefghijklmnopqrstuvw\nx".toList 20 sOld (by decide) (by decide) (by decide)
+  (by intro f hf l k
+      simp only [cfg1, Cfg.prefixFn, Option.map_some, Option.some.injEq] at hf
+      subst hf
+      show (if k > 0 then ". ".toList else if l = 0 then "> ".toList else ". ".toList).length < 9
+      split
+      · decide
+      · split <;> decide)
+  (by decide) (by decide)
+-- a click two cells right of a tab's first cell still lands on the tab (tabs_d2s_floor): "a\tb", tab stop 4
+example : bufferClick [.tabs 4 '|' '.'] "a\tb".toList 0 3 = 1 := by decide
+-- clicking right of the end of the line / below the last line: the last position of the row / the last row
+example : let r := copyBody (envFor w1 cfg0 6 3 false 0) ["ab ".toList, "c ".toList] s0
+    windowClick r 0 0 5 = (0, 2) ∧ windowClick r 0 2 0 = (1, 0) ∧ windowClick r 0 1 1 = (1, 1) := by decide
+example := click_recorded_cell (e := envFor w1 cfg0 6 3 false 0) w1_W1 ["ab ".toList, "c ".toList] s0 (by decide)
+  ((1, 1), (1, 1)) (by decide) (by decide)
+example := rowColToIndex_rowcol "ab\ncd\n\nx".toList 5 (by decide)
+
+/-! ### `get_vertical_scroll` / `get_horizontal_scroll` callbacks -/
+
+/-- a window with scroll callbacks: whatever the callbacks return on each render (they only replace
+    the previous scroll state before `do_scroll` runs), the cursor is shown on its character — one-column
+    cells, both wrap modes -/
+theorem renderCb_cursor_on_char {W : Widths} (hW : W1 W) (c : Cfg) (hps : ∀ p ∈ c.procs, ProcOK p)
+    (tw height w : Nat) (wrap : Bool) (text : Text) (cur : Nat) (cbV cbH : Option Int) (s : Scroll)
+    (hw : (tw : Int) - ((if c.margin then numberedMarginWidth (contentLines c.procs text).length else 0 : Nat) : Int) = w)
+    (h1 : 1 ≤ w) (hh : 1 ≤ height)
+    (hpfx : ∀ f, c.prefixFn = some f → ∀ l k, (f l k).length < w) :
+    ∃ r, renderCb W c tw height wrap text cur cbV cbH s = some r ∧ r.cy = rowOf text cur ∧
+      ∃ (yc xc : Nat) (ch : Char), yc < height ∧ xc < w ∧
+        ((contentLines c.procs text).getD r.cy [])[r.cx]? = some ch ∧
+        cursorFound r.st r.cy r.cx = true ∧
+        cursorScreen r.st r.cy r.cx = ((yc : Int) + c.ypos, (xc : Int) + r.xoff) ∧
+        cellAt r.st.cells ((yc : Int) + c.ypos, (xc : Int) + r.xoff) = [ch] :=
+  render_cursor_on_char hW c hps tw height w wrap text cur (applyCallbacks wrap cbV cbH s) hw h1 hh hpfx
+
+/-- the same for any cell widths (no wrapping: all inputs; the callbacks are only consulted there) -/
+theorem renderCb_cursor_shown {W : Widths} (hdm : W.dm = true) (hblank : cellW W ' ' = 1) (c : Cfg)
+    (hps : ∀ p ∈ c.procs, ProcOK p) (tw height w : Nat) (wrap : Bool) (text : Text) (cur : Nat)
+    (cbV cbH : Option Int) (s : Scroll)
+    (hd : RenderDomain W c tw height w wrap text cur (applyCallbacks wrap cbV cbH s)) :
+    CursorShown W c height text cur (renderCb W c tw height wrap text cur cbV cbH s) :=
+  render_cursor_shown hdm hblank c hps tw height w wrap text cur (applyCallbacks wrap cbV cbH s) hd
+
+-- a callback that asks for column 40 / line 9 of a short document: the scroll code corrects it
+example : let r := renderCb w1 cfg0 4 2 false "abcdefgh\nij".toList 3 (some 9) (some 40) s0
+    r.map (fun x => (x.scroll.vs, decide (x.scroll.hs ≤ 3), cursorFound x.st x.cy x.cx)) = some (0, true, true) := by decide
+example := renderCb_cursor_on_char w1_W1 cfg0 (by simp [cfg0]) 4 2 4 false "abcdefgh\nij".toList 3 (some 9) (some 40) s0
+  (by decide) (by decide) (by decide) (fun f h => by simp [cfg0, Cfg.prefixFn] at h)
+-- the new processors: ShowTrailing/LeadingWhiteSpace, a restyling processor, an enabled conditional BeforeInput,
+-- a disabled dynamic PasswordProcessor, nested merges
+example : (merged 0 1 [.trailing '~', .leading '_', .ident, .cond true (.before ">".toList), .cond false (.password '*')]
+    "  a b  ".toList).frags = ">__a b~~".toList := by decide
+example : (merged 0 1 [.group [.before "$ ".toList, .group [.tabs 3 '|' '.', .ident]], .cond true (.after "<".toList)]
+    "a\tb".toList).frags = "$ a|..b<".toList := by decide
+example := merged_good 0 1 [.group [.before "$ ".toList, .group [.tabs 3 '|' '.', .ident]], .cond true (.after "<".toList)]
+  (by intro p hp; simp at hp; rcases hp with rfl | rfl <;> simp [ProcOK, ProcsOK]) "a\tb".toList
+example := mergedT_good [applyProc 0 1 (.before "> ".toList), applyProc 0 1 (.tabs 4 '|' '.')]
+  (by intro p hp; simp at hp; rcases hp with rfl | rfl
+      · exact fun t => applyProc_good 0 1 (.before "> ".toList) (by simp [ProcOK]) t
+      · exact fun t => applyProc_good 0 1 (.tabs 4 '|' '.') (by simp [ProcOK]) t)
+example := mergedT_nested [applyProc 0 1 (.before "> ".toList)] [applyProc 0 1 (.tabs 4 '|' '.'), applyProc 0 1 .ident]
+  [applyProc 0 1 (.after "<".toList)] "a\tb".toList
+example := leadingOut_length '_' "  a b  ".toList
+example := leadingOut_blank '_' "  a b  ".toList 1 (by decide)
 
 end Ptk.C11
